@@ -31,7 +31,7 @@ META = {
     },
 }
 CASES = {'quick': 1600, 'thorough': 100000}
-SECONDS = {'quick': 60, 'thorough': 600}
+SECONDS = {'quick': 300, 'thorough': 600}
 
 
 def hostile_names(rng, case):
